@@ -1,7 +1,7 @@
 (* C13 — slashing/jailing and admin operations compose safely. *)
 From stdpp Require Import gmap.
 Require Import Model.Base Model.Validate Model.State Model.Staking Model.Slashing Model.Poa Model.App.
-Require Import proofs.L1More proofs.Inv proofs.InvIdx proofs.InvPres proofs.InvMsgs proofs.InvHistory proofs.InvQueue proofs.InvPools proofs.InvComet proofs.InvElig.
+Require Import proofs.EvBasic proofs.InvFrame proofs.InvEvidence proofs.L1More proofs.Inv proofs.InvIdx proofs.InvPres proofs.InvMsgs proofs.InvHistory proofs.InvQueue proofs.InvPools proofs.InvComet proofs.InvElig.
 
 (* admin operations aimed at a jailed validator fail cleanly (the transaction wrapper then restores the state) *)
 Theorem C13_set_power_on_jailed_fails : forall c val power unsafe v,
@@ -88,3 +88,62 @@ Theorem C13_member_power_is_token_power : forall g bs id q,
   last_pow (stk (w_chain w)) !! id = Some q ->
   exists v, vals (stk (w_chain w)) !! id = Some v /\ v_jailed v = false /\ q = tokens_to_power (v_tokens v) /\ 0 < q.
 Proof. intros g bs id q Hg w Hh Hl. exact (reachable_members_ok g bs Hg Hh id q Hl). Qed.
+
+(* double-sign slashing (x/evidence, in the same BeginBlock as x/slashing's downtime accounting): an entry that is not ignored
+   leaves the validator jailed and tombstoned, with its key and shares and no more tokens than it had, and touches no other
+   validator's record and no other signing info *)
+Theorem C13_double_sign_jails_and_tombstones : forall c e c', handle_evidence c e = Some c' ->
+  c' = c \/
+  exists id v i v',
+    by_cons (stk c) !! ev_cons e = Some id /\ vals (stk c) !! id = Some v /\ status_eqb (v_status v) Unbonded = false /\
+    infos (sl c) !! ev_cons e = Some i /\ si_tomb i = false /\
+    vals (stk c') !! id = Some v' /\ v_jailed v' = true /\ v_cons v' = v_cons v /\ v_tokens v' <= v_tokens v /\ v_shares v' = v_shares v /\
+    infos (sl c') !! ev_cons e = Some (tombstoned i) /\
+    (forall w, w <> id -> vals (stk c') !! w = vals (stk c) !! w) /\
+    (forall k, k <> ev_cons e -> infos (sl c') !! k = infos (sl c) !! k).
+Proof. exact evidence_effect. Qed.
+
+(* ... it is ignored (nothing changes) for an Unbonded validator, for an entry outside both limits of the evidence window, and
+   for a validator that is tombstoned already *)
+Theorem C13_double_sign_ignored_when : forall c e id v,
+  by_cons (stk c) !! ev_cons e = Some id -> vals (stk c) !! id = Some v ->
+  (status_eqb (v_status v) Unbonded = true \/
+   (ev_max_age_secs < now c - ev_time e /\ ev_max_age_blocks < height c - ev_height e) \/
+   (exists i, infos (sl c) !! ev_cons e = Some i /\ si_tomb i = true)) ->
+  handle_evidence c e = Some c.
+Proof. exact evidence_ignored_when. Qed.
+
+(* ... and afterwards neither its operator nor the admin brings it back: Unjail is refused while the signing info is tombstoned,
+   SetPower while the record is jailed *)
+Theorem C13_tombstoned_cannot_unjail : forall c val v i,
+  vals (stk c) !! val = Some v -> infos (sl c) !! v_cons v = Some i -> si_tomb i = true -> exists err, msg_unjail c val = MErr err.
+Proof. exact tombstoned_cannot_unjail. Qed.
+
+Theorem C13_jailed_cannot_be_powered : forall c val power unsafe v,
+  find_pending val (pending (poa c)) = None -> vals (stk c) !! val = Some v -> v_jailed v = true ->
+  exists err, msg_set_power c admin_id val power unsafe = MErr err.
+Proof. exact jailed_cannot_be_powered. Qed.
+
+(* a validator loses power or leaves the set only through downtime or double-sign slashing, an admin SetPower / RemoveValidator,
+   its own removal (or its Unjail, which can only raise it), or the max-validators cut-off: through any blocks that carry none
+   of these messages naming it, with the cap not binding, it keeps the voting power it had, unless slashing jailed it on the way *)
+Theorem C13_power_is_lost_only_through_the_listed_causes : forall g bs bs2 id,
+  wf_genesis g -> Forall (fun b => spares_txs id (b_txs b)) bs2 ->
+  let w := run_world (init_world g) bs in
+  let w2 := run_world w bs2 in
+  w_halted w = None -> w_halted w2 = None ->
+  n_pos (pidx (stk (w_chain w))) <= sp_max_validators (params (stk (w_chain w))) ->
+  n_pos (pidx (stk (w_chain w2))) <= sp_max_validators (params (stk (w_chain w2))) ->
+  last_pow (stk (w_chain w2)) !! id = last_pow (stk (w_chain w)) !! id \/
+  (downed (stk (w_chain w)) (stk (w_chain w2)) id /\ last_pow (stk (w_chain w2)) !! id = None).
+Proof. exact spared_validator_keeps_its_power. Qed.
+
+(* what "jailed on the way" leaves behind *)
+Theorem C13_downed_meaning : forall s s' id, downed s s' id ->
+  dels s' !! id = dels s !! id /\
+  exists v, vals s !! id = Some v /\
+    match vals s' !! id with
+    | Some v' => v_jailed v' = true /\ v_cons v' = v_cons v /\ v_tokens v' <= v_tokens v /\ v_shares v' = v_shares v
+    | None => True
+    end.
+Proof. intros s s' id H. exact H. Qed.
